@@ -263,8 +263,8 @@ class Check(core.PropertyCheck):
         if ctx.quick:
             return [small]
         rows2, sess2 = self._rows("thorough", rng)
-        self._big = self.model_constants("thorough", rows2, sess2, ("bearer_valid", "query_valid", "form_valid"), 3)
-        big = ctx.model_check(self.MODEL, self._big, dump=False, tag="_big", timeout=1500)
+        self._big = self.model_constants("thorough", rows2, sess2, ("bearer_valid", "query_valid", "form_valid"), 2)
+        big = ctx.model_check(self.MODEL, self._big, dump=False, tag="_big", timeout=3000, workers=4)
         return [small, big]
 
     # ---- scenarios ----------------------------------------------------------------------------------------
